@@ -188,6 +188,19 @@ def innermost(n, name_part):
     hits = [x for x in all_nodes(n) if tag(x) == "call" and name_part in x[1]]
     return hits
 
+PLUMBING = ("next_element", "next_value", "next_key", "ops::Try>::branch", "Option::<T>::ok_or_else", "Option::<T>::ok_or", "Option::<T>::unwrap", "Option::<T>::expect", "Option::<T>::take")
+
+def plumbing_only(term, stop=()):
+    """the value reaches try_from untouched: only Option/Result plumbing between the reader call and the tuple"""
+    for n in all_nodes(term):
+        if n in stop:
+            continue
+        if tag(n) in ("f", "i", "cast", "cmp", "not"):
+            return False
+        if tag(n) == "call" and not any(x in n[1] for x in PLUMBING):
+            return False
+    return True
+
 def check_serde(rep, f, sfx=""):
     ser = f.get("<TwoFloat as serde::Serialize>::serialize")
     if ser is None:
@@ -262,17 +275,19 @@ def check_serde(rep, f, sfx=""):
             n0 = innermost(e0, "next_element"); n1 = innermost(e1, "next_element")
             # e0 must depend on exactly the first next_element(seq), e1 on the second (whose access is the first's after-state)
             first = [x for x in n0 if x[2] is P(1)]
-            ok = len(n0) == 1 and len(first) == 1 and len(n1) == 2 and first[0] in n1
+            ok = len(n0) == 1 and len(first) == 1 and len(n1) == 2 and first[0] in n1 and plumbing_only(e0) and plumbing_only(e1)
             # invalid_length indices from the closures
             cl0 = [x for x in all_nodes(e0) if tag(x) == "agg" and x[1][0] == "closure"]
             cl1 = [x for x in all_nodes(e1) if tag(x) == "agg" and x[1][0] == "closure" and x not in cl0]
             idx = []
             for cl in (cl0, cl1):
-                for c in cl[:1]:
+                found = []
+                for c in cl:
                     cb = f.by_key.get(c[1][1])
                     ct = H.tree_of(f, cb, "op") if cb else None
                     calls = [n for n in all_nodes(ct[1]) if tag(n) == "call" and "invalid_length" in n[1]] if ct and ct[0] == "leaf" else []
-                    idx.append(calls[0][2][2] if calls and tag(calls[0][2]) == "const" else None)
+                    found += [calls[0][2][2] if tag(calls[0][2]) == "const" else None] if calls else []
+                idx.append(found[0] if len(found) == 1 else None)
             detail = {"element0": "first next_element", "element1": "second next_element", "invalid_length": idx}
             ok = ok and idx == [0, 1]
         rep.check(ok, "R54", "visit_seq passes (element 0, element 1) to try_from" + sfx, "serde-seq", "visit_seq does not hand element 0 and element 1, in order, to TwoFloat::try_from (or has another way to Ok): %s %s" % (detail, [vg.show(x)[:80] for x in bad]),
@@ -299,7 +314,26 @@ def check_visit_map(rep, f, b, variants, sfx):
     if not entry:
         rep.fail("R54", "visit_map" + sfx, "visit-map-loop", "visit_map has no key loop", where=H.where(b)); return
     ent = entry[0][2]
-    slots = {hv: l for l, (before, hv) in ent.items() if tag(before) == "agg" and before[1][0] == "adt" and before[1][3] == "None" and "Option<f64>" in hv[2]}
+    def none_like(v):
+        return (tag(v) == "agg" and v[1][0] == "adt" and v[1][3] == "None") or \
+               (tag(v) == "call" and v[1].startswith("<core::option::Option<T> as core::default::Default>::default") and len(v) == 2)
+    # accumulators: Option<f64> locals, or Option fields of one carrier struct, that start out empty
+    slots = {}
+    for l, (before, hv) in ent.items():
+        if none_like(before) and "Option<f64>" in hv[2]:
+            slots[hv] = (l, None)
+        elif tag(before) == "agg" and before[1][0] == "adt" and before[1][1] != "core::option::Option":
+            for i, x in enumerate(before[2]):
+                if x is not None and none_like(x):
+                    slots[mk("field", hv, i)] = (l, i)
+    def slot_after(snap, slot):
+        l, i = slots[slot]
+        nv = snap.get(l)
+        if i is None or nv is None:
+            return nv
+        if tag(nv) == "agg" and i < len(nv[2]) and nv[2][i] is not None:
+            return nv[2][i]
+        return mk("field", nv, i)
     errs = []
     if len(slots) != 2:
         errs.append("expected two Option<f64> accumulators initialised to None, found %d" % len(slots))
@@ -323,8 +357,8 @@ def check_visit_map(rep, f, b, variants, sfx):
         if leaf[0] == "backedge":
             snap = dict(leaf[3])
             changed = {}
-            for hv, l in slots.items():
-                nv = snap.get(l)
+            for hv in slots:
+                nv = slot_after(snap, hv)
                 if nv is not hv:
                     changed[hv] = nv
             upd[var] = changed
@@ -350,13 +384,15 @@ def check_visit_map(rep, f, b, variants, sfx):
             hvs = [n for n in all_nodes(comp) if n in slots]
             comps.append((hvs[0] if len(hvs) == 1 else None, closure_field(comp)))
         (h_hi, m_hi), (h_lo, m_lo) = comps
+        if not all(plumbing_only(comp) for comp in tup[2]):
+            errs.append("an accumulated word is modified on its way to try_from")
         if h_hi is None or h_lo is None or h_hi is h_lo:
             errs.append("tuple components do not come from the two distinct accumulators")
         if (m_hi, m_lo) != ("hi", "lo"):
             errs.append("missing_field names are %r" % ((m_hi, m_lo),))
         for vname, hv, fname in (("Hi", h_hi, "hi"), ("Lo", h_lo, "lo")):
             u = upd.get(vname)
-            if u is None or set(u) != {hv} or not (tag(u[hv]) == "agg" and u[hv][1][3] == "Some" and any(tag(n) == "call" and "next_value" in n[1] for n in all_nodes(u[hv]))):
+            if u is None or set(u) != {hv} or not (tag(u[hv]) == "agg" and u[hv][1][3] == "Some" and any(tag(n) == "call" and "next_value" in n[1] for n in all_nodes(u[hv])) and plumbing_only(u[hv])):
                 errs.append("key %s does not store next_value() into (only) the %s accumulator" % (vname, fname))
             dd = dup.get(vname)
             if dd is None or dd[0] != fname or dd[1] is not hv:
